@@ -1,1 +1,121 @@
 import Model.CollocFiles
+import Mathlib.Tactic
+
+/-! Helper lemmas about `findIdx` / `matchFiles` / `flattenMatches`. -/
+
+namespace CFiles
+
+theorem mem_findIdx {a b : Int} {files : List (Int × Int)} {i : Nat} :
+    i ∈ findIdx a b files ↔ ∃ h : i < files.length, files[i].1 ≤ b - 1 ∧ a ≤ files[i].2 := by
+  unfold findIdx
+  simp only [List.mem_filter, List.mem_range]
+  constructor
+  · rintro ⟨hlt, h⟩
+    refine ⟨hlt, ?_⟩
+    simpa [List.getElem?_eq_getElem hlt] using h
+  · rintro ⟨hlt, h⟩
+    exact ⟨hlt, by simpa [List.getElem?_eq_getElem hlt] using h⟩
+
+theorem nodup_findIdx (a b : Int) (files : List (Int × Int)) : (findIdx a b files).Nodup :=
+  List.nodup_range.filter _
+
+/-- the partner predicate of `matchFiles` -/
+def partner (files1 files2 : List (Int × Int)) (mi : Int) (i j : Nat) : Bool :=
+  match files1[i]?, files2[j]? with
+  | some p, some s => decide (s.1 - mi ≤ p.2) && decide (p.1 ≤ s.2 + mi)
+  | _, _ => false
+
+theorem matchFiles_ok {files1 files2 : List (Int × Int)} {start end_ mi : Int}
+    (h1 : findIdx (start - mi) (end_ + mi) files1 ≠ [])
+    (h2 : findIdx (start - mi) (end_ + mi) files2 ≠ []) :
+    matchFiles files1 files2 start end_ mi = .ok
+      (((findIdx (start - mi) (end_ + mi) files1).map (fun i =>
+        (i, (findIdx (start - mi) (end_ + mi) files2).filter (partner files1 files2 mi i)))).filter
+          (fun m => !m.2.isEmpty)) := by
+  unfold matchFiles
+  have e1 : (findIdx (start - mi) (end_ + mi) files1).isEmpty = false := by
+    cases hh : findIdx (start - mi) (end_ + mi) files1 with
+    | nil => exact absurd hh h1
+    | cons _ _ => rfl
+  have e2 : (findIdx (start - mi) (end_ + mi) files2).isEmpty = false := by
+    cases hh : findIdx (start - mi) (end_ + mi) files2 with
+    | nil => exact absurd hh h2
+    | cons _ _ => rfl
+  simp only [e1, e2, Bool.or_self, Bool.false_eq_true, if_false]
+  rfl
+
+theorem matchFiles_error {files1 files2 : List (Int × Int)} {start end_ mi : Int}
+    (h : findIdx (start - mi) (end_ + mi) files1 = [] ∨ findIdx (start - mi) (end_ + mi) files2 = []) :
+    matchFiles files1 files2 start end_ mi = .error .noFiles := by
+  unfold matchFiles
+  rcases h with h | h <;> simp [h]
+
+/-- membership in the flattened match list -/
+theorem mem_flatten_matchFiles {files1 files2 : List (Int × Int)} {start end_ mi : Int}
+    {ms : List (Nat × List Nat)} (h : matchFiles files1 files2 start end_ mi = .ok ms) (i j : Nat) :
+    (i, j) ∈ flattenMatches ms ↔
+      i ∈ findIdx (start - mi) (end_ + mi) files1 ∧ j ∈ findIdx (start - mi) (end_ + mi) files2 ∧
+      partner files1 files2 mi i j = true := by
+  by_cases h1 : findIdx (start - mi) (end_ + mi) files1 = []
+  · rw [matchFiles_error (Or.inl h1)] at h; cases h
+  by_cases h2 : findIdx (start - mi) (end_ + mi) files2 = []
+  · rw [matchFiles_error (Or.inr h2)] at h; cases h
+  rw [matchFiles_ok h1 h2] at h
+  cases h
+  unfold flattenMatches
+  simp only [List.mem_flatMap, List.mem_filter, List.mem_map, Prod.mk.injEq]
+  constructor
+  · rintro ⟨m, ⟨⟨i', hi', rfl⟩, _⟩, s, hs, rfl, rfl⟩
+    simp only [List.mem_filter] at hs
+    exact ⟨hi', hs.1, hs.2⟩
+  · rintro ⟨hi, hj, hp⟩
+    refine ⟨(i, _), ⟨⟨i, hi, rfl⟩, ?_⟩, j, ?_, rfl, rfl⟩
+    · simp only [Bool.not_eq_true', List.isEmpty_eq_false_iff_exists_mem]
+      exact ⟨j, List.mem_filter.mpr ⟨hj, hp⟩⟩
+    · exact List.mem_filter.mpr ⟨hj, hp⟩
+
+theorem nodup_flattenMatches_aux (l : List (Nat × List Nat)) (h1 : (l.map (·.1)).Nodup)
+    (h2 : ∀ m ∈ l, m.2.Nodup) : (flattenMatches l).Nodup := by
+  induction l with
+  | nil => simp [flattenMatches]
+  | cons m l ih =>
+    simp only [List.map_cons, List.nodup_cons] at h1
+    have ih' := ih h1.2 (fun x hx => h2 x (List.mem_cons_of_mem _ hx))
+    unfold flattenMatches at ih' ⊢
+    simp only [List.flatMap_cons]
+    rw [List.nodup_append]
+    refine ⟨?_, ih', ?_⟩
+    · exact (h2 m List.mem_cons_self).map (fun a b hab => by simpa using hab)
+    · intro x hx y hy hxy
+      subst hxy
+      simp only [List.mem_map] at hx
+      obtain ⟨s, _, rfl⟩ := hx
+      simp only [List.mem_flatMap, List.mem_map] at hy
+      obtain ⟨m', hm', s', _, heq⟩ := hy
+      have : m'.1 = m.1 := by simpa using congrArg Prod.fst heq
+      exact h1.1 (List.mem_map.mpr ⟨m', hm', this⟩)
+
+/-- every file pair occurs at most once among the flattened matches -/
+theorem nodup_flatten_matchFiles {files1 files2 : List (Int × Int)} {start end_ mi : Int}
+    {ms : List (Nat × List Nat)} (h : matchFiles files1 files2 start end_ mi = .ok ms) :
+    (flattenMatches ms).Nodup := by
+  by_cases h1 : findIdx (start - mi) (end_ + mi) files1 = []
+  · rw [matchFiles_error (Or.inl h1)] at h; cases h
+  by_cases h2 : findIdx (start - mi) (end_ + mi) files2 = []
+  · rw [matchFiles_error (Or.inr h2)] at h; cases h
+  rw [matchFiles_ok h1 h2] at h
+  cases h
+  apply nodup_flattenMatches_aux
+  · refine List.Nodup.sublist ((List.filter_sublist).map _) ?_
+    rw [List.map_map]
+    have : ((fun m : Nat × List Nat => m.1) ∘ fun i =>
+        (i, (findIdx (start - mi) (end_ + mi) files2).filter (partner files1 files2 mi i))) = id := by
+      funext i; rfl
+    rw [this, List.map_id]
+    exact nodup_findIdx _ _ _
+  · intro m hm
+    simp only [List.mem_filter, List.mem_map] at hm
+    obtain ⟨⟨i, _, rfl⟩, _⟩ := hm
+    exact (nodup_findIdx _ _ _).filter _
+
+end CFiles
